@@ -29,6 +29,13 @@ CHECKS = {
         "Trusted: Coq kernel; Reals axioms for the rescale lemmas only; model tied by exact differential check; float rounding of the affine map and the foreign-environment adapters are explored, not proved.",
         "DESIGN.md §5 C13",
     ),
+    "C04": (
+        "Coq proof (contract of the collection step for all env/policy records, induction over the scan, map over environments) + exact correspondence with the real collect_rollout evaluated in Coq",
+        "Theorems for every environment, actor-critic policy, state and key path: the row holds the observation seen, the action chosen with the policy's own value/log-prob, the mask offered; the env is driven and rewarded with the clipped action; done = terminal or truncated; gamma*V(successor) added iff truncated and not terminated; env and policy state restart after done; re-evaluation reproduces value/log-prob for coherent policies (ratio 1); row t of the scan comes from the state carried after t steps; N-env collection = N single collections; stored advantages are GAE of the rows. "
+        "Tie: buffers and carried states of real PPO/A2C collect_rollout (scalar and vmapped as in iteration()) on finite MDPs with tabular stateful policies, out-of-bounds Box proposals, masks, time limits; key-free cases decide the property independently of key routing.",
+        "Trusted: Coq kernel; Reals axioms only for the GAE link; hand-written model of on_policy.py:185-217,340-449 tied by exact differential check; jr.split as key paths with tabulated draws; filter_scan/filter_cond/filter_vmap assumed to be scan/cond/map.",
+        "DESIGN.md §5 C04",
+    ),
 }
 
 NOT_YET = "check not built yet in this round (planned: see DESIGN.md §5)"
